@@ -31,7 +31,9 @@ INCS = ["-I" + REPO + "/include", "-I" + REPO + "/src",
         "-I" + REPO + "/nl-writer2/include", "-I" + ROOT + "/harness"]
 
 FLAVORS = {
-    # production defines (NDEBUG) + sanitizers; -O1 keeps ASan runs fast
+    # production defines (NDEBUG) + sanitizers; compiled with clang++ (COMPILER below): GCC 12 drops the ASan check
+    # of a load in some loops at any optimisation level above -O0 (a one-byte read behind the terminating NUL in
+    # TextReader::ReadString went unreported - seeded change C02-3); clang 14 at -O1 reports it
     "asan": ["-O1", "-g1", "-fsanitize=address,undefined",
              "-fno-sanitize-recover=undefined", "-fno-omit-frame-pointer"],
     # the converter's CRTP bases cast `this` to the final class while it is still under
@@ -80,10 +82,13 @@ def _ccenv():
     return env
 
 
-def _compile_one(src, obj, flags):
+COMPILER = {"asan": "clang++", "asan-novptr": "clang++"}      # flavor -> C++ compiler (default g++)
+
+
+def _compile_one(src, obj, flags, cxx="g++"):
     os.makedirs(os.path.dirname(obj), exist_ok=True)
     tmp = "%s.%d.tmp.o" % (obj, os.getpid())
-    cmd = ["ccache", "g++", "-std=c++17", "-w"] + flags + DEFS + INCS + ["-c", src, "-o", tmp]
+    cmd = ["ccache", cxx, "-std=c++17", "-w"] + flags + DEFS + INCS + ["-c", src, "-o", tmp]
     t0 = time.time()
     p = sh(cmd, env=_ccenv(), capture_output=True, text=True)
     if p.returncode == 0:
@@ -109,7 +114,7 @@ def build(target, srcs, flavor="asan", libs=(), extra_flags=(), harness_srcs=())
         jobs.append((os.path.join(ROOT, "harness", s), o))
     t0 = time.time()
     with cf.ThreadPoolExecutor(max_workers=NPROC) as ex:
-        res = list(ex.map(lambda j: _compile_one(j[0], j[1], flags), jobs))
+        res = list(ex.map(lambda j: _compile_one(j[0], j[1], flags, COMPILER.get(flavor, "g++")), jobs))
     for src, rc, err, dt in res:
         if rc != 0:
             raise Broken("compile failed: %s\n%s" % (src, err))
@@ -118,7 +123,7 @@ def build(target, srcs, flavor="asan", libs=(), extra_flags=(), harness_srcs=())
     for o in objs:
         with open(o, "rb") as f:
             h.update(hashlib.sha1(f.read()).digest())
-    h.update(" ".join(flags + list(libs)).encode())
+    h.update(" ".join([COMPILER.get(flavor, "g++")] + flags + list(libs)).encode())
     exe = os.path.join(BUILD, "bin", target)
     stamp = exe + ".stamp"
     os.makedirs(os.path.dirname(exe), exist_ok=True)
@@ -127,7 +132,7 @@ def build(target, srcs, flavor="asan", libs=(), extra_flags=(), harness_srcs=())
     if want != have:
         link_flags = [f for f in flags if f.startswith("-fsanitize") or f.startswith("-fno-sanitize") or f == "--coverage"]
         tmpexe = "%s.%d.tmp" % (exe, os.getpid())
-        cmd = ["g++"] + link_flags + objs + ["-o", tmpexe] + list(libs) + ["-ldl", "-lpthread"]
+        cmd = [COMPILER.get(flavor, "g++")] + link_flags + objs + ["-o", tmpexe] + list(libs) + ["-ldl", "-lpthread"]
         p = sh(cmd, capture_output=True, text=True)
         if p.returncode != 0:
             raise Broken("link failed: %s\n%s" % (target, p.stderr[-4000:]))
